@@ -556,28 +556,85 @@ fn lex(text: &str) -> Vec<Tok> {
     out
 }
 
-fn find_matches(text: &str, pat: &str) -> Vec<Range<usize>> {
+/// Token-sequence search. `$$` in the pattern is a wildcard: a (lazily) minimal, bracket-balanced run of
+/// tokens, captured as $1, $2, .. for the replacement text.
+fn find_matches(text: &str, pat: &str) -> Vec<(Range<usize>, Vec<Range<usize>>)> {
     let tt = lex(text);
-    let pp = lex(pat);
+    let pp0 = lex(pat);
+    // fold `$` `$` into one wildcard marker
+    let mut pp: Vec<Option<&str>> = vec![];
+    let mut i = 0;
+    while i < pp0.len() {
+        let t = &pat[pp0[i].s..pp0[i].e];
+        if t == "$" && i + 1 < pp0.len() && &pat[pp0[i + 1].s..pp0[i + 1].e] == "$" && pp0[i + 1].s == pp0[i].e {
+            pp.push(None);
+            i += 2;
+        } else {
+            pp.push(Some(t));
+            i += 1;
+        }
+    }
     let mut out = vec![];
     if pp.is_empty() {
         return out;
     }
-    let mut i = 0;
-    while i + pp.len() <= tt.len() {
-        let mut ok = true;
-        for (k, p) in pp.iter().enumerate() {
-            if text[tt[i + k].s..tt[i + k].e] != pat[p.s..p.e] {
-                ok = false;
-                break;
+    fn go(text: &str, tt: &[Tok], pp: &[Option<&str>], ti: usize, pi: usize, caps: &mut Vec<Range<usize>>) -> Option<usize> {
+        if pi == pp.len() {
+            return Some(ti);
+        }
+        match pp[pi] {
+            Some(p) => {
+                if ti < tt.len() && &text[tt[ti].s..tt[ti].e] == p {
+                    go(text, tt, pp, ti + 1, pi + 1, caps)
+                } else {
+                    None
+                }
+            }
+            None => {
+                let mut depth: i32 = 0;
+                let mut k = ti;
+                loop {
+                    if depth == 0 {
+                        let mark = caps.len();
+                        let s = if k > ti { tt[ti].s } else if ti < tt.len() { tt[ti].s } else { text.len() };
+                        let e = if k > ti { tt[k - 1].e } else { s };
+                        caps.push(s..e);
+                        if let Some(end) = go(text, tt, pp, k, pi + 1, caps) {
+                            return Some(end);
+                        }
+                        caps.truncate(mark);
+                    }
+                    if k >= tt.len() {
+                        return None;
+                    }
+                    match &text[tt[k].s..tt[k].e] {
+                        "(" | "[" | "{" => depth += 1,
+                        ")" | "]" | "}" => {
+                            depth -= 1;
+                            if depth < 0 {
+                                return None;
+                            }
+                        }
+                        _ => {}
+                    }
+                    k += 1;
+                }
             }
         }
-        if ok {
-            out.push(tt[i].s..tt[i + pp.len() - 1].e);
-            i += pp.len();
-        } else {
-            i += 1;
+    }
+    let mut i = 0;
+    while i < tt.len() {
+        let mut caps = vec![];
+        if pp[0].is_some() {
+            if let Some(end) = go(text, &tt, &pp, i, 0, &mut caps) {
+                if end > i {
+                    out.push((tt[i].s..tt[end - 1].e, caps));
+                    i = end;
+                    continue;
+                }
+            }
         }
+        i += 1;
     }
     out
 }
@@ -590,6 +647,38 @@ struct BodyScan {
     closures: Vec<ClosureInfo>,
     attr_nodes: Vec<(Vec<syn::Attribute>, Range<usize>)>,
     field_values: Vec<(Vec<syn::Attribute>, Range<usize>)>,
+    str_matches: Vec<StrMatch>,
+}
+
+struct StrArm {
+    pat: Range<usize>,
+    lits: Vec<String>,          // empty => catch-all
+    bind: Option<String>,       // catch-all binding ident
+    body: Range<usize>,
+    body_is_block: bool,
+    comma: Option<Range<usize>>,
+    has_guard: bool,
+}
+
+struct StrMatch {
+    head: Range<usize>, // `match SCRUT {` including the brace
+    scrut: Range<usize>,
+    arms: Vec<StrArm>,
+}
+
+fn pat_strs(p: &syn::Pat, out: &mut Vec<String>) -> bool {
+    match p {
+        syn::Pat::Lit(l) => {
+            if let syn::Lit::Str(s) = &l.lit {
+                out.push(s.token().to_string());
+                true
+            } else {
+                false
+            }
+        }
+        syn::Pat::Or(o) => o.cases.iter().all(|c| pat_strs(c, out)),
+        _ => false,
+    }
 }
 
 struct LoopInfo {
@@ -646,6 +735,36 @@ impl<'ast> Visit<'ast> for BodyScan {
             body_is_block: matches!(&*n.body, syn::Expr::Block(_)),
         });
         syn::visit::visit_expr_closure(self, n);
+    }
+    fn visit_expr_match(&mut self, n: &'ast syn::ExprMatch) {
+        let mut any_str = false;
+        let mut arms = vec![];
+        for a in &n.arms {
+            let mut lits = vec![];
+            let is_str = pat_strs(&a.pat, &mut lits);
+            any_str |= is_str;
+            let bind = match &a.pat {
+                syn::Pat::Ident(pi) => Some(pi.ident.to_string()),
+                _ => None,
+            };
+            arms.push(StrArm {
+                pat: br(&a.pat),
+                lits: if is_str { lits } else { vec![] },
+                bind,
+                body: br(&*a.body),
+                body_is_block: matches!(&*a.body, syn::Expr::Block(_)),
+                comma: a.comma.as_ref().map(|c| br(c)),
+                has_guard: a.guard.is_some() || !(is_str || matches!(&a.pat, syn::Pat::Ident(_) | syn::Pat::Wild(_))),
+            });
+        }
+        if any_str {
+            self.str_matches.push(StrMatch {
+                head: br(&n.match_token).start..br(&n.brace_token.span.open()).end,
+                scrut: br(&*n.expr),
+                arms,
+            });
+        }
+        syn::visit::visit_expr_match(self, n);
     }
     fn visit_stmt(&mut self, n: &'ast syn::Stmt) {
         match n {
@@ -844,6 +963,42 @@ fn handle_fn(
                 edits.insert(l.whole.end, " }");
                 log.push(format!("R6:for->while loop {}", n));
             }
+            "match_str" => {
+                let m = scan
+                    .str_matches
+                    .get(n)
+                    .ok_or_else(|| format!("string match {} not found ({} present)", n, scan.str_matches.len()))?;
+                let var = format!("__m{}", n);
+                edits.replace(m.head.clone(), format!("{{ let {} = {}; ", var, &src[m.scrut.clone()]));
+                for (k, a) in m.arms.iter().enumerate() {
+                    if a.has_guard {
+                        return Err("match_str: arm outside the supported subset (R5)".into());
+                    }
+                    let kw = if k == 0 { "" } else { "else " };
+                    let pre;
+                    let mut post = String::new();
+                    if !a.lits.is_empty() {
+                        let cond: Vec<String> = a.lits.iter().map(|l| format!("str_eq({}, {})", var, l)).collect();
+                        pre = format!("{}if {} ", kw, cond.join(" || "));
+                        if !a.body_is_block {
+                            edits.insert(a.body.start, "{ ");
+                            post.push_str(" }");
+                        }
+                    } else {
+                        let bind = a.bind.as_ref().map(|b| format!("let {} = {}; ", b, var)).unwrap_or_default();
+                        pre = format!("{}{{ {}", kw, bind);
+                        post.push_str(" }");
+                    }
+                    edits.replace(a.pat.start..a.body.start, pre);
+                    if !post.is_empty() {
+                        edits.insert(a.body.end, post);
+                    }
+                    if let Some(c) = &a.comma {
+                        edits.replace(c.clone(), "");
+                    }
+                }
+                log.push(format!("R5:match on str {} -> if chain", n));
+            }
             "closure" => {
                 let c = scan
                     .closures
@@ -872,8 +1027,12 @@ fn handle_fn(
                         if any { "≥1".to_string() } else { want.unwrap_or(1).to_string() }
                     ));
                 }
-                for m in ms {
-                    edits.replace(brange.start + m.start..brange.start + m.end, to.to_string());
+                for (m, caps) in ms {
+                    let mut t = to.to_string();
+                    for (k, c) in caps.iter().enumerate() {
+                        t = t.replace(&format!("${}", k + 1), &body_text[c.clone()]);
+                    }
+                    edits.replace(brange.start + m.start..brange.start + m.end, t);
                 }
                 log.push(format!("{}:replace `{}`", e["rule"].as_str().unwrap_or("R?"), from));
             }
